@@ -21,8 +21,13 @@ use crate::{
 pub fn run(args: &Args) -> Report {
     let mut rep = Report::new("C06", "model_checking");
     let max_view = args.tier.pick(2, 3);
-    let total = args.tier.pick(55, 3000);
+    let total = args.tier.pick(36, 3000);
     let pl = c01::placements();
+    if args.replay.as_ref().map_or(false, |r| r["replay"]["harness"] == "gossipnet") {
+        use super::gossipnet::SystemScenario as S;
+        let _ = super::gossipnet::report_system(&mut rep, args.seed, &[S::AllUp, S::OneDown, S::Restart]);
+        return rep;
+    }
     if args.replay.is_some() {
         rep.machinery_errors.push("replay: re-run the check; the violation message contains the full path and the good-period trace".into());
         return rep;
@@ -159,7 +164,16 @@ pub fn run(args: &Args) -> Report {
     if checked == 0 || loops_run == 0 {
         rep.machinery_errors.push(format!("vacuous: good periods {checked}, run-loop good periods {loops_run}"));
     }
+    // part D: whole nodes on real networks (sampled)
+    let system_cov = if rep.violations.is_empty() {
+        use super::gossipnet::SystemScenario as S;
+        let scs: Vec<S> = if args.tier == crate::core::Tier::Quick { vec![S::Restart] } else { vec![S::AllUp, S::OneDown, S::Restart] };
+        super::gossipnet::report_system(&mut rep, args.seed, &scs)
+    } else {
+        serde_json::json!(null)
+    };
     rep.coverage = json!({
+        "whole_nodes_on_real_networks": system_cov,
         "states": graph_states.max(1),
         "transitions": steps.max(1),
         "traces_validated_against_impl": checked,
